@@ -14,6 +14,7 @@
 import LdkModel.Proofs.GossipSpecThms
 import LdkModel.Proofs.GossipRefine
 import LdkModel.Proofs.GossipRgs
+import LdkModel.Proofs.GossipAsync
 namespace Ldk.C17
 open Ldk Ldk.Gossip
 
@@ -325,5 +326,172 @@ theorem rgs_incremental_order_dependent :
    ⟨3, false, false, 15, 40, 1, 4000, 2, 2, true, false, true, 1⟩,
    ⟨700000, none, [], [], 40, 1, 10, 20, 900000, [⟨3, 192, 144, 0, 0, 0, 0⟩]⟩,
    by decide, by decide, by decide⟩
+
+/-! ## asynchronous UTXO lookups (routing/utxo.rs: UtxoResult::Async, UtxoFuture, PendingChecks)
+
+`Async.State` = the graph + the pending lookups with what is parked in them; `Async.step` = one delivery (which
+first passes the pending-lookup layer: refused, PARKED or handed to the graph handler), one announcement whose
+lookup answers `UtxoResult::Async`, one `UtxoFuture::resolve`, or one `check_resolved_futures`
+(Model/GossipAsync.lean — what the driver runs in every phase). -/
+
+open Async in
+/-- AUTHENTICITY UNDER ANY INTERLEAVING of deliveries (valid, wrongly signed, re-signed, duplicated, …),
+    asynchronous lookups, their resolutions (success or failure, in any order, repeated) and
+    `check_resolved_futures` calls, from the empty state: the graph is only ever changed by non-message
+    operations and by handing a message that WAS DELIVERED — unchanged: same verify request, same signer /
+    signature flags; an announcement with the lookup's answer and the receipt time filled in — to the graph
+    handler `Impl.applyMsg`, and every such application that was asked to verify and changed the graph had all its
+    signatures valid against the graph at that very moment (`Reach`, Proofs/GossipAsync.lean).
+    In particular a parked message is replayed through the SIGNATURE-VERIFYING entry point: the proof uses
+    `Gen.replayFullUpdVerifies = true`, generated from the text of utxo.rs::resolve_single_future. -/
+theorem async_accepted_implies_verified (ops : List AOp) :
+    Reach (Delivered (delivered ops)) Graph.empty (Async.run State.empty ops).g :=
+  (run_ok ops _ Graph.empty State.empty (fun _ h => h)
+    ⟨(by intro p hp; cases hp), Reach.refl _⟩).2
+
+open Async in
+/-- One step from ANY state (reachable or not) whose parked messages all satisfy `P`: the graph moves only by
+    applications of the step's own message or of parked messages, each verified when verification was requested. -/
+theorem async_step_accepted_implies_verified (P : Msg → Prop) (s : State) (op : AOp) (hs : HeldOk P s)
+    (hm : ∀ m, op = .base (.msg m) → P m)
+    (ha : ∀ a fid, op = .annAsync a fid → ∀ r now, P (.chanAnn (reAnswer a r now))) :
+    HeldOk P (Async.step s op).1 ∧ Reach P s.g (Async.step s op).1.g :=
+  step_ok op hm ha ⟨hs, Reach.refl _⟩
+
+/-- what `Reach` gives for each single application: the statement of `accepted_implies_verified` -/
+theorem async_reach_last_application (P : Msg → Prop) (g g' : Graph) (m : Msg) (_h : Async.Reach P g g')
+    (hv : verifyRequested m = true) (hch : (Impl.applyMsg g' m).1 ≠ g') : msgVerified g' m := by
+  rw [Impl.applyMsg_eq] at hch
+  exact applyMsg_changed_verified g' m hv hch
+
+/-- non-vacuity: an update parked while the lookup was pending lands in the graph when the lookup resolves — and
+    the same update signed by the other node does not (the seeded change C17-r4 makes it land) -/
+example :
+    let a : ChanAnn := ⟨7, 1, 2, false, true, true, true, true, true, true, .unknownTx, 100⟩
+    let good : ChanUpd := ⟨7, false, false, 10, 40, 1, 1000, 1, 2, true, false, true, 1⟩
+    let forged : ChanUpd := { good with signer := 2 }
+    let run := fun (u : ChanUpd) => Async.run Async.State.empty
+      [.annAsync a 1, .base (.msg (.chanUpd u)), .resolve 1 (.value 1000), .process 100]
+    (Async.step (Async.run Async.State.empty [.annAsync a 1]) (.base (.msg (.chanUpd forged)))).2 = .reject .awaitingChanUpd ∧
+    (((run good).g.channels.get 7).bind (fun c => c.d12.map (·.lastUpdate))) = some 10 ∧
+    (((run forged).g.channels.get 7).map (fun c => c.d12.isSome)) = some false ∧
+    (run good).pend.length = 0 := by decide
+
+/-- Which entry points verify BEFORE a message can be parked (generated from the statement order in gossip.rs):
+    a channel_announcement and a node_announcement are parked only after their signatures were checked; a
+    channel_update is parked WITHOUT any signature check (its key is not known yet) — the replay is its only check.
+    `update_channel` (the replay's entry point) passes the signature on. -/
+theorem async_verify_before_parking :
+    Gen.parkChanAnnAfterSigCheck = true ∧ Gen.holdNodeAnnAfterSigCheck = true ∧ Gen.holdUpdAfterSigCheck = false ∧
+    Gen.replayFullUpdVerifies = true ∧ Gen.replayFullUpdStores = true ∧ Gen.updateChannelVerifies = true := by decide
+
+example : Gen.holdUpdAfterSigCheck = false := by decide
+
+/-- Parking rules as coded: an update goes to slot a iff `channel_flags & 1 = 1`, a node announcement to slot a iff
+    the node is `node_id_1` of the parked announcement; a slot keeps the FIRST message with the LARGEST timestamp
+    (a later message replaces it only with a strictly larger timestamp) — whoever signed it. -/
+theorem async_parking_rules (p : Async.Pending) (u : ChanUpd) (n : NodeAnn) :
+    (Async.holdUpd p u = if u.dir then
+        (if (match p.cuA.map (·.ts) with | none => true | some t => decide (t < u.ts)) then { p with cuA := some u } else p)
+      else (if (match p.cuB.map (·.ts) with | none => true | some t => decide (t < u.ts)) then { p with cuB := some u } else p)) ∧
+    (Async.holdNode p n = if p.ann.n1 = n.node then
+        (if (match p.naA.map (·.ts) with | none => true | some t => decide (t < n.ts)) then { p with naA := some n } else p)
+      else (if (match p.naB.map (·.ts) with | none => true | some t => decide (t < n.ts)) then { p with naB := some n } else p)) := by
+  constructor
+  · simp only [Async.holdUpd, Async.gen_holdUpdIsA, Async.gen_holdUpdReplaces]
+    cases u.dir <;> rfl
+  · simp only [Async.holdNode, Async.gen_holdNodeIsA, Async.gen_holdNodeReplaces, decide_eq_true_eq]
+    split <;> rfl
+
+example : (Async.holdUpd ⟨1, ⟨7, 1, 2, false, true, true, true, true, true, true, .unknownTx, 100⟩, none, none, none,
+      some ⟨7, true, false, 10, 40, 1, 1000, 1, 2, true, false, true, 2⟩, none⟩
+    ⟨7, true, false, 10, 41, 1, 1000, 9, 2, true, false, true, 2⟩).cuA.map (·.feeBase) = some 1 := by decide
+
+/-- The pending-lookup limit: back-pressure is signalled exactly when more than 32 SCIDs have a live pending lookup. -/
+theorem async_too_many_checks (s : Async.State) : Async.tooMany s = decide (s.chans.length > 32) := rfl
+
+example : Async.tooMany ⟨Graph.empty, [], (List.range 33).map (fun i => (i, i))⟩ = true := by decide
+
+/-- Without a pending lookup the layer is transparent: every delivery is exactly the synchronous model's. -/
+theorem async_transparent_without_pending (g : Graph) (cs : List (Nat × Nat)) (m : Msg) :
+    Async.deliver ⟨g, [], cs⟩ m = (⟨(Impl.applyMsg g m).1, [], cs⟩, (Impl.applyMsg g m).2) :=
+  Async.deliver_nopending g cs m
+
+example : (Async.deliver Async.State.empty (.chanAnn ⟨7, 1, 2, false, true, true, true, true, true, true, .noLookup, 100⟩)).2 = .accept := by
+  decide
+
+/-- SYNC vs ASYNC, no message in the window: an announcement whose lookup is answered asynchronously and
+    resolved later gives — once `check_resolved_futures` ran — exactly the state the synchronous answer gives,
+    with the receipt time being the time of the resolution. From ANY graph, for any announcement (valid or not) and
+    any answer. -/
+theorem async_equals_sync_empty_window (g : Graph) (a : ChanAnn) (fid : Nat) (r : Utxo) (now : Nat) (hr : r ≠ .noLookup) :
+    (Async.run ⟨g, [], []⟩ [.annAsync a fid, .resolve fid r, .process now]).g =
+    (Async.run ⟨g, [], []⟩ [.base (.msg (.chanAnn (Async.reAnswer a r now)))]).g ∧
+    (Async.run ⟨g, [], []⟩ [.annAsync a fid, .resolve fid r, .process now]).pend = [] := by
+  have hpre : ∀ u : Utxo, u ≠ .noLookup → Impl.chanAnnPre g { a with utxo := u } = Impl.chanAnnPre g { a with utxo := .unknownTx } := by
+    intro u hu; cases u <;> first | exact absurd rfl hu | rfl
+  have hgate : ∀ now', Async.annGate g { a with utxo := r, now := now' } = Async.annGate g { a with utxo := .unknownTx } := by
+    intro now'
+    have h1 : Impl.chanAnnPre g { a with utxo := r, now := now' } = Impl.chanAnnPre g { a with utxo := .unknownTx } := by
+      cases r <;> first | exact absurd rfl hr | rfl
+    simp only [Async.annGate, h1]; rfl
+  simp only [Async.run, List.foldl_cons, List.foldl_nil, Async.step, Async.deliver, Async.deliverChanAnn, Async.annAsync,
+    Async.alreadyChecking, Async.chanPending_nil]
+  cases hg : Async.annGate g { a with utxo := .unknownTx } with
+  | some rj =>
+    have hg' := hgate now
+    simp only [Async.reAnswer, hg', hg]
+    simp [Async.resolve, Async.process]
+  | none =>
+    have hg' := hgate now
+    simp only [Async.reAnswer, hg', hg]
+    simp [Async.resolve, Async.process, Async.setChan, Async.replayOne, Async.replayAnn, Async.replayNodes,
+      Async.replayUpds, Async.note, Async.deliverChanAnn, Async.alreadyChecking, Async.chanPending, hg', hg]
+
+example : (Async.run ⟨Graph.empty, [], []⟩ [.annAsync ⟨7, 1, 2, false, true, true, true, true, true, true, .unknownTx, 0⟩ 1,
+    .resolve 1 (.value 1000), .process 100]).g.channels.get 7 =
+    some ⟨1, 2, some 1000, none, none, 100, true⟩ := by decide
+
+/-- DOCUMENTED DIFFERENCE 1 (the code comment "may cause us to end up dropping valid channel_updates if a peer is
+    malicious"): while the lookup is pending a slot keeps only the message with the largest timestamp and nothing is
+    verified, so a WRONGLY SIGNED update with a larger timestamp shadows a valid one — in either arrival order.
+    With the synchronous answer the valid update is stored; with the asynchronous one the direction stays empty
+    (the forged update itself is refused at the replay). -/
+theorem async_drops_valid_update_behind_forged_newer :
+    ∃ (a : ChanAnn) (good forged : ChanUpd),
+      forged.ts > good.ts ∧
+      ((Async.run Async.State.empty [.base (.msg (.chanAnn (Async.reAnswer a (.value 1000) 100))), .base (.msg (.chanUpd good)),
+          .base (.msg (.chanUpd forged))]).g.channels.get a.scid).bind (fun c => c.d12.map (·.lastUpdate)) = some good.ts ∧
+      ((Async.run Async.State.empty [.annAsync a 1, .base (.msg (.chanUpd good)), .base (.msg (.chanUpd forged)),
+          .resolve 1 (.value 1000), .process 100]).g.channels.get a.scid).map (fun c => c.d12.isSome) = some false ∧
+      ((Async.run Async.State.empty [.annAsync a 1, .base (.msg (.chanUpd forged)), .base (.msg (.chanUpd good)),
+          .resolve 1 (.value 1000), .process 100]).g.channels.get a.scid).map (fun c => c.d12.isSome) = some false :=
+  ⟨⟨7, 1, 2, false, true, true, true, true, true, true, .unknownTx, 100⟩,
+   ⟨7, false, false, 10, 40, 1, 1000, 1, 2, true, false, true, 1⟩,
+   ⟨7, false, false, 11, 40, 1, 1000, 1, 2, true, false, true, 2⟩, by decide, by decide, by decide, by decide⟩
+
+/-- DOCUMENTED DIFFERENCE 2: the same for an update whose `htlc_maximum_msat` exceeds the capacity the lookup will
+    report (not checkable while pending): it shadows an older acceptable update and is refused at the replay. -/
+theorem async_drops_valid_update_behind_oversized_newer :
+    ∃ (a : ChanAnn) (good big : ChanUpd),
+      ((Async.run Async.State.empty [.base (.msg (.chanAnn (Async.reAnswer a (.value 5) 100))), .base (.msg (.chanUpd good)),
+          .base (.msg (.chanUpd big))]).g.channels.get a.scid).bind (fun c => c.d12.map (·.lastUpdate)) = some good.ts ∧
+      ((Async.run Async.State.empty [.annAsync a 1, .base (.msg (.chanUpd good)), .base (.msg (.chanUpd big)),
+          .resolve 1 (.value 5), .process 100]).g.channels.get a.scid).map (fun c => c.d12.isSome) = some false :=
+  ⟨⟨7, 1, 2, false, true, true, true, true, true, true, .unknownTx, 100⟩,
+   ⟨7, false, false, 10, 40, 1, 1000, 1, 2, true, false, true, 1⟩,
+   ⟨7, false, false, 11, 40, 1, 6000, 1, 2, true, false, true, 1⟩, by decide, by decide⟩
+
+/-- DOCUMENTED DIFFERENCE 3: a second, different announcement of the same SCID takes over the SCID's parking slot:
+    updates parked afterwards follow the LATEST pending lookup, and once that one is resolved, updates for the SCID
+    are refused as `unknownChannel` again although the first lookup is still pending. -/
+theorem async_second_lookup_takes_over_the_scid :
+    ∃ (a b : ChanAnn) (u : ChanUpd), a.scid = b.scid ∧
+      (Async.step (Async.run Async.State.empty [.annAsync a 1, .annAsync b 2, .resolve 2 .unknownTx, .process 100])
+        (.base (.msg (.chanUpd u)))).2 = .reject .unknownChannel ∧
+      (Async.run Async.State.empty [.annAsync a 1, .annAsync b 2, .resolve 2 .unknownTx, .process 100]).pend.length = 1 :=
+  ⟨⟨7, 1, 2, false, true, true, true, true, true, true, .unknownTx, 100⟩,
+   ⟨7, 1, 3, false, true, true, true, true, true, true, .unknownTx, 100⟩,
+   ⟨7, false, false, 10, 40, 1, 1000, 1, 2, true, false, true, 1⟩, rfl, by decide, by decide⟩
 
 end Ldk.C17
